@@ -187,6 +187,28 @@ func (w *Rewriter) Rewrite(name string, b []byte, depth int) []byte {
 				}
 				out = append(out, lenRec(r, rec, sub))
 			case sh.Repeated && (sh.Cat == "scalar" || sh.Cat == "enum") && fd.Kind != "string" && fd.Kind != "bytes":
+				// non-minimal varints inside the packed payload
+				if scalarIsVarint(fd.Kind) && r.Intn(3) == 0 {
+					var np []byte
+					rest := payload
+					okp := true
+					for len(rest) > 0 {
+						v, n := protowire.ConsumeVarint(rest)
+						if n < 0 {
+							okp = false
+							break
+						}
+						if r.Intn(2) == 0 {
+							np = append(np, NonMinimalVarint(v, 1+r.Intn(3))...)
+						} else {
+							np = append(np, rest[:n]...)
+						}
+						rest = rest[n:]
+					}
+					if okp {
+						payload = np
+					}
+				}
 				// packed -> unpacked / mixed
 				if r.Intn(2) == 0 {
 					out = append(out, w.unpack(fd, rec, payload)...)
@@ -330,4 +352,12 @@ var Tokens = [][]byte{
 	{0x01, 0x00, 0x00, 0x00}, {0x01, 0x00, 0x00, 0x00, 0x00, 0x00, 0x00, 0x00},
 	{0x02, 0x08, 0x01}, {0x02, 0x10, 0x01}, {0x01, 0x08}, {0x03, 0x0a, 0x01, 0x61},
 	{0x80, 0x80, 0x80, 0x80, 0x10}, {0xf8, 0xff, 0xff, 0xff, 0x0f},
+}
+
+func scalarIsVarint(kind string) bool {
+	switch kind {
+	case "fixed32", "sfixed32", "float", "fixed64", "sfixed64", "double", "string", "bytes":
+		return false
+	}
+	return true
 }
